@@ -148,6 +148,7 @@ pub struct MAdapter {
     pub alive: bool,
     pub done: bool,
     pub calls: u32,
+    pub owned: Vec<u32>,
 }
 
 /// (flat op index, index among the sends of that flat op)
@@ -735,9 +736,12 @@ impl Model {
                 self.threads[t].os_gen += 1;
                 self.threads[t].sent = false;
             }
-            Op::ANew { a, kind, span, poll_name } => {
+            Op::ANew { a, kind, span, poll_name, owned } => {
                 if let Some(s) = span {
                     self.spans.get_mut(s).unwrap().held_by = Some(*a);
+                }
+                for o in owned {
+                    self.spans.get_mut(o).unwrap().held_by = Some(*a);
                 }
                 self.adapters.insert(
                     *a,
@@ -749,6 +753,7 @@ impl Model {
                         alive: true,
                         done: false,
                         calls: 0,
+                        owned: owned.clone(),
                     },
                 );
             }
@@ -800,7 +805,13 @@ impl Model {
             Op::ADrop { a } => {
                 let adm = self.adapters.get_mut(a).unwrap();
                 adm.alive = false;
-                if let Some(s) = adm.span.take() {
+                let owned = std::mem::take(&mut adm.owned);
+                let sp = adm.span.take();
+                // the inner object (and what it owns) is dropped before the adapter's span
+                for o in owned {
+                    self.finish_span(o);
+                }
+                if let Some(s) = sp {
                     self.finish_span(s);
                 }
             }
